@@ -8,6 +8,7 @@ from astropy.coordinates import SkyCoord
 
 import common as C
 import wcsfam as W
+import ecs as E
 from core import err_kind
 
 ID = "C19"
@@ -134,18 +135,26 @@ def declared(case):
         elif m["kind"] == "time":
             names += [f"t{k}"]; types += ["time"]; units += ["s"]
         else:
-            names += [f"lon{k}", f"lat{k}"]; types += sky_ptypes(k); units += ["deg", "deg"]
+            names += [f"lon{k}", f"lat{k}"]; types += sky_ptypes(k)
+            units += [x.unit.to_string() for x in E.other_angle_units(1 * u.deg, 1 * u.deg, k + 1)]     # as stored
     return names, types, units
 
 
-def declared_ok(w, case, label, fails):
-    """a WCS made from the case's coordinate (sliced, interpolated ...) still declares what the coordinate was given"""
+def declared_ok(w, case, label, fails, angles_free=False):
+    """a WCS made from the case's coordinate (sliced, interpolated ...) still declares what the coordinate was given
+    (`angles_free`: an interpolated SkyCoord is rebuilt in its frame's own angular unit - any angular unit is accepted
+    there, the values being compared as physical angles)"""
     names, types, units = declared(case)
+    if angles_free:
+        got_units = [u.Unit(x) for x in w.world_axis_units]
+        if len(got_units) == len(units):
+            units = [g.to_string() if (u.Unit(x).physical_type == "angle" and g.physical_type == "angle") else x
+                     for x, g in zip(units, got_units)]
     if list(w.world_axis_names) != names:
         fails.append(f"{label}: world_axis_names {list(w.world_axis_names)}, given {names}")
     elif [str(t) for t in w.world_axis_physical_types] != types:
         fails.append(f"{label}: world_axis_physical_types {list(w.world_axis_physical_types)}, given {types}")
-    elif [u.Unit(x).to_string() for x in w.world_axis_units] != units:
+    elif len(w.world_axis_units) != len(units) or any(u.Unit(x) != u.Unit(y) for x, y in zip(w.world_axis_units, units)):
         fails.append(f"{label}: world_axis_units {list(w.world_axis_units)}, given {units}")
 
 
@@ -165,7 +174,8 @@ def build_member(m, k):
     if kind == "time":
         return TimeTableCoordinate(t0_of(m) + np.array(m["tables"][0]) * u.s, names=f"t{k}", physical_types="time")
     # ICRS, or (every third member) a frame with a non-default attribute
-    sc = SkyCoord(np.array(m["tables"][0]) * u.deg, np.array(m["tables"][1]) * u.deg,
+    # (the angles are stored in degrees, or - by member position and seed - in hour angle / radian or arcsec / arcmin)
+    sc = SkyCoord(*E.other_angle_units(np.array(m["tables"][0]) * u.deg, np.array(m["tables"][1]) * u.deg, k + 1),
                   **({"frame": "icrs"} if k % 3 != 1 else {"frame": "fk5", "equinox": "J1975"}))
     return SkyCoordTableCoordinate(sc, mesh=(kind == "sky2mesh"), names=[f"lon{k}", f"lat{k}"],
                                    physical_types=sky_ptypes(k))
@@ -244,10 +254,22 @@ def frac(x):
     return int(f) if f.denominator == 1 else [f.numerator, f.denominator]
 
 
-def p2w(w, pix):
+def p2w(w, pix, raw=False):
+    """world values at a pixel; angles in degrees whatever angular unit the WCS declares for them (a SkyCoord table
+    may be stored in hour angle, radian, arcsec ...: its values are physical)"""
     out = w.pixel_to_world_values(*pix)
     out = [out] if w.world_n_dim == 1 and not isinstance(out, (tuple, list)) else list(out)
-    return [float(np.asarray(x)) for x in out]
+    out = [float(np.asarray(x)) for x in out]
+    if raw:
+        return out                       # (in the units the WCS declares)
+    for j, un in enumerate(w.world_axis_units):
+        try:
+            q = u.Unit(un)
+            if q.physical_type == "angle" and q != u.deg:
+                out[j] = out[j] * float(q.to(u.deg))
+        except Exception:
+            pass
+    return out
 
 
 def same(a, b, atol=1e-9):
@@ -450,7 +472,7 @@ def run(case):
             arrs = [gconv(g) for g in grids]
             ic = coord.interpolate(arrs) if len(case["members"]) > 1 else (coord.interpolate(*arrs) if case["members"][0]["kind"] != "time" else coord.interpolate(arrs[0]))
             iw = ic.wcs
-            declared_ok(iw, case, f"interpolate({grids})", fails)
+            declared_ok(iw, case, f"interpolate({grids})", fails, angles_free=True)
             it_vals = []
             for _ in range(6):
                 ks = [rng.randrange(len(g)) for g in grids]
@@ -500,7 +522,7 @@ def run(case):
                     fails.append(f"coord[{item}]: declares {list(sw_.world_axis_names)} / {list(sw_.world_axis_physical_types)}")
                 else:
                     for x in range(nk - lo):
-                        got = p2w(sw_, [float(x)])
+                        got = p2w(sw_, [float(x)], raw=True)
                         if not same(got, [float(tab_q.value[lo + x])]):
                             fails.append(f"coord[{item}] at pixel {x} gives {got} {want_unit}, the table entry is {tab_q[lo + x]}")
                             break
@@ -557,6 +579,24 @@ def run(case):
                 tags.append("resample")
             except Exception as e:
                 fails.append(f"ExtraCoords.resample(factor={factor}, offset={offset}) raised {type(e).__name__}: {str(e)[:120]}")
+    # (7) a WCS, once built, keeps describing its tables: the same coordinate objects joined again the other way round
+    # (and their WCS built) must not change what the first WCS reports, as high-level objects and as values
+    if len(members) >= 2 and not fails:
+        try:
+            zero = [0.0] * w.pixel_n_dim
+            objs = lambda: [repr(o) for o in (lambda r: r if isinstance(r, (list, tuple)) else [r])(w.pixel_to_world(*zero))]
+            before_o, before_v = objs(), p2w(w, zero, raw=True)
+            c2 = members[-1]
+            for d in members[-2::-1]:
+                c2 = c2 & d
+            c2.wcs
+            after_o, after_v = objs(), p2w(w, zero, raw=True)
+            if after_o != before_o or not same(after_v, before_v):
+                fails.append(f"after the same tables were joined in reverse order the first WCS reports {after_o} at pixel 0, "
+                             f"before it reported {before_o}")
+            tags.append("rejoined")
+        except Exception as e:
+            fails.append(f"the first WCS, after its tables were joined again in reverse order, raised {type(e).__name__}: {str(e)[:120]}")
     # ---- model request (separable members only)
     if "sky2d" not in kinds:
         tables, slots = [], []       # one model table per world output; slots: pixel input index in the joined vector
